@@ -220,3 +220,46 @@ Proof.
   { split; [split; cbn; unfold u64, M64 in *; lia|cbn; unfold luval; cbn; lia]. }
   destruct (luint_div_Z a _ Ha Kw ltac:(lia)) as (K & V & _). rewrite Vw in V. split; assumption.
 Qed.
+
+(** ------------------------------------------------------------------ the small conversion / test helpers (bignum.h:65-126) *)
+Theorem conversions_Z :
+  (forall a, ls_ok a -> lsint_lt_0 a = if luval a <? 0 then 1 else 0) /\
+  (forall x, ls_ok x -> sexp_lsint_fits_sint x = if (- 9223372036854775808 <=? luval x) && (luval x <? 9223372036854775808) then 1 else 0) /\
+  (forall x, lu_ok x -> sexp_luint_fits_uint x = if luval x <? M64 then 1 else 0) /\
+  (forall v, s64 v -> ls_ok (lsint_from_sint v) /\ luval (lsint_from_sint v) = v) /\
+  (forall v, u64 v -> lu_ok (luint_from_uint v) /\ luval (luint_from_uint v) = v) /\
+  (forall v, ls_ok v -> s64 (lsint_to_sint v) /\ lsint_to_sint v mod M64 = luval v mod M64 /\ lsint_to_sint_hi v = luval v / M64) /\
+  (forall v, lu_ok v -> luint_to_uint v = luval v mod M64 /\ luint_to_uint_hi v = luval v / M64) /\
+  (forall v, ls_ok v -> lu_ok (luint_from_lsint v) /\ luval (luint_from_lsint v) = luval v mod M128) /\
+  (forall v, lu_ok v -> ls_ok (lsint_from_luint v) /\ luval (lsint_from_luint v) = smod128 (luval v)).
+Proof.
+  repeat split.
+  - intros [ah al] [Hh Hl]. unfold lsint_lt_0, luval, s64, u64 in *. cbn [fst snd] in *. unfold M64 in *.
+    destruct (Z.ltb_spec ah 0), (Z.ltb_spec (ah * 18446744073709551616 + al) 0); lia.
+  - intros [xh xl] [Hh Hl]. unfold sexp_lsint_fits_sint, luval, s64, u64 in *. cbn [fst snd] in *.
+    rewrite wrap64, swrap64, Z.shiftr_div_pow2 by lia. change (2 ^ 63) with 9223372036854775808. unfold M64 in *.
+    destruct (Z.eqb_spec xh (((xl + 9223372036854775808) mod 18446744073709551616 - 9223372036854775808) / 9223372036854775808)),
+      (Z.eqb_spec (((xl + 9223372036854775808) mod 18446744073709551616 - 9223372036854775808) mod 18446744073709551616) xl),
+      (Z.leb_spec (-9223372036854775808) (xh * 18446744073709551616 + xl)), (Z.ltb_spec (xh * 18446744073709551616 + xl) 9223372036854775808);
+      cbn [andb]; lia.
+  - intros [xh xl] [Hh Hl]. unfold sexp_luint_fits_uint, luval, u64 in *. cbn [fst snd] in *. rewrite Z.eqb_refl, andb_true_r. unfold M64 in *.
+    destruct (Z.eqb_spec xh 0), (Z.ltb_spec (xh * 18446744073709551616 + xl) 18446744073709551616); lia.
+  - unfold lsint_from_sint, ls_ok, s64, u64. cbv zeta. cbn [fst snd]. rewrite wrap64, Z.shiftr_div_pow2 by lia.
+    change (2 ^ 63) with 9223372036854775808. unfold s64, M64 in *. lia.
+  - unfold lsint_from_sint, luval, s64. cbv zeta. cbn [fst snd]. rewrite wrap64, Z.shiftr_div_pow2 by lia.
+    change (2 ^ 63) with 9223372036854775808. unfold s64, M64 in *. lia.
+  - unfold luint_from_uint, lu_ok, u64 in *. cbv zeta. cbn [fst snd]. unfold M64 in *. lia.
+  - unfold luint_from_uint, lu_ok, u64 in *. cbv zeta. cbn [fst snd]. unfold M64 in *. lia.
+  - unfold luint_from_uint, luval. cbv zeta. cbn [fst snd]. lia.
+  - destruct v as [vh vl]. destruct H as [Hh Hl]. unfold lsint_to_sint, s64, u64 in *. cbn [fst snd] in *. rewrite swrap64. unfold M64 in *. lia.
+  - destruct v as [vh vl]. destruct H as [Hh Hl]. unfold lsint_to_sint, luval, s64, u64 in *. cbn [fst snd] in *. rewrite swrap64. unfold M64 in *. lia.
+  - destruct v as [vh vl]. destruct H as [Hh Hl]. unfold lsint_to_sint_hi, luval, s64, u64 in *. cbn [fst snd] in *. unfold M64 in *. lia.
+  - destruct v as [vh vl]. destruct H as [Hh Hl]. unfold luint_to_uint, luval, u64 in *. cbn [fst snd] in *. unfold M64 in *. lia.
+  - destruct v as [vh vl]. destruct H as [Hh Hl]. unfold luint_to_uint_hi, luval, u64 in *. cbn [fst snd] in *. unfold M64 in *. lia.
+  - apply luint_from_lsint_Z; assumption.
+  - apply luint_from_lsint_Z; assumption.
+  - apply luint_from_lsint_Z; assumption.
+  - apply lsint_from_luint_Z; assumption.
+  - apply lsint_from_luint_Z; assumption.
+  - apply lsint_from_luint_Z; assumption.
+Qed.
